@@ -19,6 +19,7 @@ mod c13;
 mod c14;
 mod c15;
 mod c18;
+mod coldstart;
 
 use common::*;
 use std::io::Write;
@@ -30,6 +31,9 @@ fn main() {
         std::process::exit(2);
     }
     let id = args[1].clone();
+    if args.iter().any(|a| a == "--coldstart") {
+        std::process::exit(coldstart::run(&id, 16));
+    }
     let mut tier = Tier::Quick;
     let mut out = None;
     let mut replay = None;
